@@ -1,26 +1,26 @@
 (* Property C02 — expression assignment `target := expr` and `:+= :-= :*= :/= :%=`.
    Only statements of theorems, closed by `exact`, each followed by Print Assumptions.
 
-   The model (Model/Expr*.v) is a faithful port of the pinned pipeline, quirks included, and is
-   tied to /repo by exact text equality on every run.  Two one/two-line defects are repaired by
-   fixes/C02-optconst-identity.patch and fixes/C02-evalexpr-unary-plus.patch, and the model
-   describes the repaired code.  The FULL statement of the property,
+   The model (Model/Expr*.v) is a port of the pipeline as repaired by fixes/C02-*.patch (18 of the
+   19 defect classes recorded for the pinned tree), tied to /repo by exact text equality on every
+   run.  What is proved:
 
-     C02_expr_correct :
-       forall nm target form e st, lits_ok e = true -> loaded … ->
-         exists cmds ints, compile_expr nm target form e = (Ok (cmds, ints), _) /\ wf cmds /\
-           exists st', exec cmds st = Some st' /\
-             (forall v, form_sem form (old target) (eval e) = Some v -> target holds v in st') /\
-             no other user variable changes,
+     C02_partial            the full conclusion of the property — no tag, well-formed commands,
+                            termination, target = `old <form> value of e` computed from the scores
+                            BEFORE the statement, no other user variable changed — for all six
+                            forms and EVERY tree of + - * / % over variables, the target included,
+                            in any parenthesisation (by induction through all six stages);
+     C02_partial_literal    the same for a 32-bit literal as right side;
+     C02_parse_correct      operator precedence and left associativity of the parser;
+     C02_optimize_correct   optimize_const preserves the meaning of EVERY operation list;
+     C02_lowering_correct / C02_lowering_wf   the lowering, for EVERY operation list.
 
-   is FALSE for the pinned code in 16 independent ways: C02_refuted_* give one witness per defect
-   class (the tag fired by the quirky branch), proved by computation on the model.  What holds:
-   C02_lowering_correct / C02_lowering_wf (every operation list, no hypothesis on its shape) and
-   C02_partial (the full conclusion for `:=` on the clean fragment, by induction on the tree). *)
+   The full statement for all expressions is still false in one way: `**` accepts only a constant,
+   non-negative exponent (C02_refuted_pow_nonconst). *)
 From Coq Require Import ZArith String List Bool.
 From JMCV Require Import Base.Int32 Base.Dec MC.Syntax MC.Sem Model.Names Model.VarOp Proofs.VarOp
      Model.Expr Model.ExprSpec Model.ExprFront Model.ExprBack
-     Proofs.ExprLower Proofs.ExprRefute Proofs.ExprParse Proofs.ExprOps Proofs.ExprClean Proofs.ExprSmall.
+     Proofs.ExprLower Proofs.ExprRefute Proofs.ExprParse Proofs.ExprOps Proofs.ExprOpt Proofs.ExprClean Proofs.ExprSmall.
 Import ListNotations.
 Open Scope Z_scope.
 
@@ -44,7 +44,7 @@ Print Assumptions C02_lowering_correct.
 
 (* The emitted commands together with the __load__ lines of their constants are accepted by
    Minecraft exactly when the tag const_range did not fire (add/remove amounts 0..2^31-1, set and
-   __int__ constants in int32). *)
+   __int__ constants in int32; `+ -2147483648` goes through the constant). *)
 Theorem C02_lowering_wf :
   forall nm ops cmds ints tags,
     lower nm ops = (Ok (cmds, ints), tags) ->
@@ -52,157 +52,118 @@ Theorem C02_lowering_wf :
 Proof. exact lower_wf. Qed.
 Print Assumptions C02_lowering_wf.
 
-(* ------------------------------------------------------------------ the clean fragment: full conclusion *)
-(* `clean nm out e`: e is a variable other than the target, or an operation + - * / % whose operands
-   are variables other than the target or parenthesised such operations, except `( … ) - ( … )`.
-   For every such expression of ANY size and shape, every target, names configuration, function
-   table and initial state: the pipeline produces commands without firing any tag, they are
-   well-formed, run to completion, the target holds the value of the expression computed from the
-   scores BEFORE the statement, every score that is neither the target nor a __tempN__ scratch
-   score is unchanged, storage and trace are unchanged.
+(* ------------------------------------------------------------------ the parser: precedence and associativity *)
+(* `arith e`: e is built from variables with + - * / % and parentheses.  For every such expression,
+   written with the parentheses standard precedence and left associativity require (`render`) plus
+   any redundant ones, tokens_to_tokens and the shunting-yard of expression_to_tree build exactly
+   the tree of e (`tree_of`: the Expression objects with the operand swaps of __post_init__). *)
+Theorem C02_parse_correct :
+  forall nm e, arith e = true ->
+    tokens_to_tokens nm (render e) = (Ok (flat nm e), []) /\
+    expression_to_tree (flat nm e) = (Ok (tree_of nm e), []).
+Proof. intros nm e H. split; [exact (ttt_ok nm e H)|exact (parse_arith nm e H)]. Qed.
+Print Assumptions C02_parse_correct.
+
+(* ------------------------------------------------------------------ optimize_const: full strength *)
+(* For EVERY operation list with 32-bit constants (any operators, operands, aliasing, order) and every
+   assignment g of 32-bit values to the scores: the optimised list (constants merged, `v = c; v += a`
+   reordered, `v += 0` / `v *= 1` deleted) leaves every score with the value the original list leaves;
+   its constants are 32-bit and it assigns to the same variables with the same operators. *)
+Theorem C02_optimize_correct :
+  forall ops, consts32 ops ->
+    (forall g, R32 g -> forall k, interp_ops (optimize_const ops) g k = interp_ops ops g k) /\
+    consts32 (optimize_const ops) /\
+    (forall y, In y (optimize_const ops) -> exists x, In x ops /\ (o_var x, o_op x) = (o_var y, o_op y)).
+Proof. exact optimize_const_correct. Qed.
+Print Assumptions C02_optimize_correct.
+
+(* ------------------------------------------------------------------ the arithmetic fragment: full conclusion *)
+(* For every expression e with `arith e` — ANY size and shape, the target may occur in it any number
+   of times —, each of the six forms (`form`: PEmpty is `:=`, PAdd is `:+=`, …), every target, names
+   configuration, function table and initial state with 32-bit scores in which the __int__ constants
+   the statement asks for are materialised: the pipeline produces commands without firing any tag,
+   they (and the __load__ lines of their constants) are well-formed, run to completion, the target
+   holds `old target <form> value of e` where the value is computed from the scores BEFORE the
+   statement, every score that is neither the target nor a __tempN__ scratch score is unchanged,
+   storage and trace are unchanged.
    (Side conditions: target and variables are not themselves named __tempN__; VAR <> INT.) *)
 Theorem C02_partial :
-  forall ft env nm target e st,
+  forall ft env nm target form e,
     let out := score_of nm target in
-    clean nm out e = true ->
+    arith e = true -> form <> PPow ->
     (forall n, out <> temp_score nm n) ->
     (forall s n, In s (evars nm e) -> s <> temp_score nm n) ->
     snd out <> int_name nm -> var_name nm <> int_name nm ->
-    exists cmds,
-      compile_expr nm out PEmpty e = (Ok (cmds, []), []) /\
-      forallb wf_cmd cmds = true /\
-      exists st', exec_list ft env 1 cmds st = Some st' /\
-        (forall v, eval nm (rd (sc st)) e = Some v -> rd (sc st') out = v) /\
-        (forall s, s <> out -> (forall n, s <> temp_score nm n) -> rd (sc st') s = rd (sc st) s) /\
-        stg st' = stg st /\ tr st' = tr st.
-Proof. exact partial_clean. Qed.
+    exists cmds ints,
+      compile_expr nm out form e = (Ok (cmds, ints), []) /\
+      forallb wf_cmd cmds && forallb wf_cmd (load_ints nm ints) = true /\
+      forall st all, int32_state st -> loaded nm st all -> (forall z, In z ints -> In z all) ->
+        exists st', exec_list ft env 1 cmds st = Some st' /\
+          (forall v w, eval nm (rd (sc st)) e = Some v -> form_sem form (rd (sc st) out) v = Some w ->
+                       rd (sc st') out = w) /\
+          (forall s, s <> out -> (forall n, s <> temp_score nm n) -> rd (sc st') s = rd (sc st) s) /\
+          stg st' = stg st /\ tr st' = tr st.
+Proof. exact partial_arith. Qed.
 Print Assumptions C02_partial.
 
-(* `small e`: e is one operand — ANY variable, also the target itself, or a 32-bit literal — or one
-   operation + - * / % of two variables EITHER OR BOTH OF WHICH MAY BE THE TARGET
-   (`$x := $a - $x`, `$x := $x * $x`, …).  Same conclusion: in particular every operand is read as it
-   was before the statement. *)
-Theorem C02_partial_small :
-  forall ft env nm target e st,
+(* The same for a 32-bit literal as the whole right side (`$x := -5`, `$x :*= 3`, `$x :+= -2147483648`, …). *)
+Theorem C02_partial_literal :
+  forall ft env nm target form z,
     let out := score_of nm target in
-    small e = true ->
-    (forall n, out <> temp_score nm n) ->
-    (forall s n, In s (evars nm e) -> s <> temp_score nm n) ->
+    in_int32b z = true -> form <> PPow ->
     snd out <> int_name nm -> var_name nm <> int_name nm ->
-    exists cmds,
-      compile_expr nm out PEmpty e = (Ok (cmds, []), []) /\
-      forallb wf_cmd cmds = true /\
-      exists st', exec_list ft env 1 cmds st = Some st' /\
-        (forall v, eval nm (rd (sc st)) e = Some v -> rd (sc st') out = v) /\
-        (forall s, s <> out -> (forall n, s <> temp_score nm n) -> rd (sc st') s = rd (sc st) s) /\
-        stg st' = stg st /\ tr st' = tr st.
-Proof. exact partial_small. Qed.
-Print Assumptions C02_partial_small.
+    exists cmds ints,
+      compile_expr nm out form (EConst z) = (Ok (cmds, ints), []) /\
+      forallb wf_cmd cmds && forallb wf_cmd (load_ints nm ints) = true /\
+      forall st all, int32_state st -> loaded nm st all -> (forall z, In z ints -> In z all) ->
+        exists st', exec_list ft env 1 cmds st = Some st' /\
+          (forall w, form_sem form (rd (sc st) out) z = Some w -> rd (sc st') out = w) /\
+          (forall s, s <> out -> rd (sc st') s = rd (sc st) s) /\
+          stg st' = stg st /\ tr st' = tr st.
+Proof. exact partial_literal. Qed.
+Print Assumptions C02_partial_literal.
 
-(* ------------------------------------------------------------------ the full statement is false: one witness per class *)
+(* ------------------------------------------------------------------ what is still false *)
 (* `violates w t` (Proofs/ExprRefute.v): the statement w, compiled by the model, fires tag t and
    - leaves a wrong value in the target from the state w_init (V_wrong_value), or
    - emits a command Minecraft rejects (V_invalid_command), or
    - is rejected with a diagnostic although it has a value (V_rejected), or
    - makes the compiler raise a non-JMC exception (V_internal_error). *)
-Theorem C02_refuted_parse_precedence :      (* $x := $a + $b * $c * $d   computes (a + b*c) * d *)
-  exists w, lits_ok (w_e w) = true /\ violates w T_parse_pop_lower.
-Proof. exists w_parse. exact refuted_parse. Qed.
-Print Assumptions C02_refuted_parse_precedence.
-
-Theorem C02_refuted_unary_minus :           (* $x := $b / -$a   computes (b / -1) * a *)
-  exists w, lits_ok (w_e w) = true /\ violates w T_neg_after_tight.
-Proof. exists w_neg. exact refuted_neg. Qed.
-Print Assumptions C02_refuted_unary_minus.
-
-Theorem C02_refuted_compound_leading_minus : (* $x :+= -$a   is rejected *)
-  exists w, lits_ok (w_e w) = true /\ violates w T_iop_leading_minus.
-Proof. exists w_iop_minus. exact refuted_iop_minus. Qed.
-Print Assumptions C02_refuted_compound_leading_minus.
-
-Theorem C02_refuted_compound_inject :       (* $x :+= $a * 2   computes (x + a) * 2 *)
-  exists w, lits_ok (w_e w) = true /\ violates w T_iop_inject.
-Proof. exists w_iop. exact refuted_iop. Qed.
-Print Assumptions C02_refuted_compound_inject.
-
-Theorem C02_refuted_inject_reused_temp :    (* $x := 0 - $a * $b + $x   overwrites $x before reading it *)
-  exists w, lits_ok (w_e w) = true /\ violates w T_inject_reused_temp.
-Proof. exists w_reuse. exact refuted_reuse. Qed.
-Print Assumptions C02_refuted_inject_reused_temp.
-
-Theorem C02_refuted_sub_rewrite_fold :      (* $x := (1 + 2) - (3 + 4)   is folded to -10 *)
-  exists w, lits_ok (w_e w) = true /\ violates w T_sub_rewrite_fold.
-Proof. exists w_subfold. exact refuted_subfold. Qed.
-Print Assumptions C02_refuted_sub_rewrite_fold.
-
-Theorem C02_refuted_fold_pow_negbase :      (* $x := (-3) ** 2   is folded to -9 *)
-  exists w, lits_ok (w_e w) = true /\ violates w T_fold_pow_negbase.
-Proof. exists w_pow. exact refuted_pow. Qed.
-Print Assumptions C02_refuted_fold_pow_negbase.
-
 Theorem C02_refuted_pow_nonconst :          (* $x := $a ** $b   is rejected *)
   exists w, lits_ok (w_e w) = true /\ violates w T_pow_nonconst.
 Proof. exists w_pownc. exact refuted_pownc. Qed.
 Print Assumptions C02_refuted_pow_nonconst.
 
-Theorem C02_refuted_opt_final_minus :       (* $x := $a - 3 - 2   computes a + 5 *)
-  exists w, lits_ok (w_e w) = true /\ violates w T_opt_final_minus.
-Proof. exists w_minus. exact refuted_minus. Qed.
-Print Assumptions C02_refuted_opt_final_minus.
+(* ------------------------------------------------------------------ the repaired classes, non-vacuity *)
+(* The 18 statements that witnessed the defect classes repaired by fixes/C02-*.patch
+   (`$x := $a + $b * $c * $d`, `$x := $b / -$a`, `$x :+= -$a`, `$x :+= $a * 2`, `$x := 0 - $a * $b + $x`,
+   `$x := (1 + 2) - (3 + 4)`, `$x := (-3) ** 2`, `$x := $a - 3 - 2`, `$x := $a / 3 / -2`, `$x := 7 % $a % 3`,
+   `$x := ($a - 3 - 2) * $b`, `$x := $a + -2147483648`, `$x := 1 / 0`, `$x := ($x ** 0) ** 2`,
+   `$x := ($a * 2) ** 2 * 3`, `$x := 1000000 * 46341 / 46341`, `$x := 7 / 2 * 2`, `$x := 2 ** 7 ** 7`):
+   the model compiles each without a tag to well-formed commands that leave the demanded value in the
+   target from the witness state (`1 / 0`, which has no value, is rejected with a JMC diagnostic). *)
+Example C02_repaired_witnesses : forallb holds_b repaired_witnesses = true.
+Proof. exact repaired_hold. Qed.
+Print Assumptions C02_repaired_witnesses.
 
-Theorem C02_refuted_opt_final_div :         (* $x := $a / 3 / -2   computes a / -6 *)
-  exists w, lits_ok (w_e w) = true /\ violates w T_opt_final_div.
-Proof. exists w_div. exact refuted_div. Qed.
-Print Assumptions C02_refuted_opt_final_div.
-
-Theorem C02_refuted_opt_final_mod :         (* $x := 7 % $a % 3   computes (7 % 3) % a *)
-  exists w, lits_ok (w_e w) = true /\ violates w T_opt_final_mod.
-Proof. exists w_mod. exact refuted_mod. Qed.
-Print Assumptions C02_refuted_opt_final_mod.
-
-Theorem C02_refuted_opt_mid_merge :         (* $x := ($a - 3 - 2) * $b   computes (a - 1) * b *)
-  exists w, lits_ok (w_e w) = true /\ violates w T_opt_mid_merge.
-Proof. exists w_mid. exact refuted_mid. Qed.
-Print Assumptions C02_refuted_opt_mid_merge.
-
-Theorem C02_refuted_opt_swap_self :         (* $x := ($x ** 0) ** 2   emits only `$x = $x` *)
-  exists w, lits_ok (w_e w) = true /\ violates w T_opt_swap_self.
-Proof. exists w_swap. exact refuted_swap. Qed.
-Print Assumptions C02_refuted_opt_swap_self.
-
-Theorem C02_refuted_opt_merge_self :        (* $x := ($a * 2) ** 2 * 3   computes (a * 6) ** 2 *)
-  exists w, lits_ok (w_e w) = true /\ violates w T_opt_merge_self.
-Proof. exists w_mself. exact refuted_mself. Qed.
-Print Assumptions C02_refuted_opt_merge_self.
-
-Theorem C02_refuted_const_range :           (* $x := $a + -2147483648   emits `remove … 2147483648` *)
-  exists w, lits_ok (w_e w) = true /\ violates w T_const_range.
-Proof. exists w_range. exact refuted_range. Qed.
-Print Assumptions C02_refuted_const_range.
-
-Theorem C02_refuted_crash_fold :            (* $x := 1 / 0   ZeroDivisionError escapes *)
-  exists w, lits_ok (w_e w) = true /\ violates w T_crash_fold.
-Proof. exists w_crash. exact refuted_crash. Qed.
-Print Assumptions C02_refuted_crash_fold.
-
-(* ------------------------------------------------------------------ non-vacuity *)
-(* `$x := ($a + $b) * ($c - $d)` is in the clean fragment, meets the side conditions of C02_partial,
-   and the model compiles it to five commands; from a = 2, b = 3, c = 1, d = 8 its value
-   is (2 + 3) * (1 - 8) = -35. *)
+(* `$x :-= ($a + $x) * ($c - $x) / $x` is in the fragment (the target occurs three times), meets the
+   side conditions of C02_partial, and the model compiles it; from x = 7, a = 2, c = 1 the value of the
+   right side is (2 + 7) * (1 - 7) / 7 = floor(-54 / 7) = -8, so the target must become 7 - -8 = 15. *)
 Example C02_partial_nonvacuous :
   let nm := default_names in
   let v (n : string) := EVar (SDollar n) in
-  let e := EBin BMul (EPar (EBin BAdd (v "$a"%string) (v "$b"%string))) (EPar (EBin BSub (v "$c"%string) (v "$d"%string))) in
+  let e := EBin BDiv (EBin BMul (EPar (EBin BAdd (v "$a"%string) (v "$x"%string)))
+                                (EPar (EBin BSub (v "$c"%string) (v "$x"%string)))) (v "$x"%string) in
   let out := score_of nm (SDollar "$x"%string) in
-  clean nm out e = true /\
+  let f := (fun k => if score_eqb k ("$a", "__variable__") then 2 else if score_eqb k ("$x", "__variable__") then 7 else 1)%string in
+  arith e = true /\
   (forall n, out <> temp_score nm n) /\
   (forall s n, In s (evars nm e) -> s <> temp_score nm n) /\
-  List.length (match fst (compile_expr nm out PEmpty e) with Ok (c, _) => c | _ => [] end) = 5%nat /\
-  eval nm (fun k => if score_eqb k ("$a", "__variable__") then 2 else if score_eqb k ("$b", "__variable__") then 3
-                    else if score_eqb k ("$c", "__variable__") then 1 else 8)%string e = Some (-35).
+  eval nm f e = Some (-8) /\ form_sem PSub (f out) (-8) = Some 15.
 Proof.
   cbn zeta. split; [reflexivity|]. split; [|split; [|split; reflexivity]].
   - intros n H. injection H as H _. cbn in H. discriminate.
   - intros s n Hs H. cbn in Hs.
     repeat (destruct Hs as [<-|Hs]; [injection H as H _; cbn in H; discriminate|]). destruct Hs.
 Qed.
+Print Assumptions C02_partial_nonvacuous.
